@@ -103,6 +103,9 @@ class C18Sched(Scheduler):
 class C18Spec(c01.C01Spec):
     prop = PROP
     guide_share = 0
+    # (an application callback that raises while it is told of a failure leaves the tick too - not the doing of a
+    # read-only node; such workloads belong to C01/C02)
+    cb_raise_share = 0
     invariants = INVARIANTS
 
     def draw(self, rng, tier='quick'):
